@@ -57,14 +57,23 @@ def is_trigger_input(t, attr, any_inputs):
     return attr in ("ti", "ti2")
 
 
+OUT = {"T": ["po"], "E": ["eo"], "H": ["po", "eo"]}
+IN = {"T": ["mi"], "E": ["ti", "ti2"], "H": ["mi", "ti", "ti2"]}
+
+
 def must_raise(st, dt, sg, dg, sa, da, shift, weak, init, any_inputs):
+    """any_inputs: False | True (destination model) | "child" | "split" (both models described by
+    role lists without `attrs`, so that inputs and outputs are different sets) | "src_any" (the
+    SOURCE model has any_inputs: its outputs are still only its attrs)"""
     reasons = []
-    if sa not in ATTRS[st]:
+    outs = OUT[st] if any_inputs == "split" else ATTRS[st]
+    ins = IN[dt] if any_inputs == "split" else ATTRS[dt]
+    if sa not in outs:
         reasons.append("src-attr")
-    if da not in ATTRS[dt] and any_inputs is not True:
+    if da not in ins and any_inputs is not True:
         reasons.append("dst-attr")
     if (shift or weak) and not init:
-        valid_in = da in ATTRS[dt] or any_inputs is True
+        valid_in = da in ins or any_inputs is True
         if valid_in and not is_trigger_input(dt, da, any_inputs):
             reasons.append("needs-initial-data")
     if weak and common_depth(sg, dg) < 2:
@@ -81,9 +90,10 @@ def snapshot(world):
 
 def make_world(st, dt, sg, dg, any_inputs, cache=True):
     scen = dict(until=1, groups=GROUPS,
-                sims=[dict(sid="S", type=TYPES[st], group=sg),
+                sims=[dict(sid="S", type=TYPES[st], group=sg, any_inputs=(any_inputs == "src_any"),
+                           split=(any_inputs == "split")),
                       dict(sid="D", type=TYPES[dt], group=dg, any_inputs=(any_inputs is True),
-                           child=(any_inputs == "child"))],
+                           child=(any_inputs == "child"), split=(any_inputs == "split"))],
                 conns=[])
     r = Run(scen, dict(gates=(), cache=cache), None)
     from . import stubs
@@ -288,6 +298,9 @@ def check(prop, tier):
               for ai in (False, True) for cache in ((True, False) if tier == "thorough" else (True,))]
     # destination = child entity of another model (hierarchical entities), hybrid destinations
     combos += [(st, "H", sg, dg, "child", True) for st in "TEH" for sg in (None, "g") for dg in (None, "g", "g2")]
+    # models whose inputs and outputs are different sets; a source model with any_inputs
+    combos += [(st, dt, sg, dg, ai, True) for st in "TEH" for dt in "TEH" for sg in (None, "g")
+               for dg in (None, "g", "h") for ai in ("split", "src_any")]
     if tier == "quick":
         # cache=False on the combos where it changes the code path (persistent source)
         combos += [(st, dt, sg, dg, False, False) for st in "TH" for dt in "TEH"
